@@ -53,6 +53,7 @@ package skchia
 //@   ensures result == pq.poppedItem
 //@ func (*plotterQueue).Delete
 //@   attr trusted
+//@   requires lock-entry: !held[addr(pq.Mutex)]
 //@   modifies nothing
 //@   ensures pq.poppedItem == old(pq.poppedItem)
 
